@@ -11,6 +11,9 @@ import multiprocessing
 
 VERIF = os.path.dirname(os.path.dirname(os.path.abspath(__file__)))
 REPO = os.environ.get('RTAMT_REPO', '/repo')
+# where evidence and replays are written: /verif unless a tool that exercises the checks against a scratch copy of the
+# repository (tools/mutsweep.py) redirects them
+OUTDIR = os.environ.get('VERIF_OUTDIR', VERIF)
 DRIVER = os.path.join(VERIF, 'build', 'model_driver')
 PY = '/venv/bin/python'
 NPROC = int(os.environ.get('VERIF_PROCS', '14'))
@@ -211,7 +214,7 @@ class Report(object):
         self.coverage = {}
         self.assumptions = []
         self.notes = []
-        d = os.path.join(VERIF, 'replays', pid)
+        d = os.path.join(OUTDIR, 'replays', pid)
         if os.path.isdir(d):
             for fn in os.listdir(d):
                 if fn.endswith('.json'):
@@ -221,7 +224,7 @@ class Report(object):
         replay = dict(replay)
         replay['property'] = self.pid
         replay['seed'] = self.seed
-        d = os.path.join(VERIF, 'replays', self.pid)
+        d = os.path.join(OUTDIR, 'replays', self.pid)
         os.makedirs(d, exist_ok=True)
         path = os.path.join(d, case_hash(replay) + '.json')
         json.dump(replay, open(path, 'w'), indent=1, sort_keys=True)
@@ -254,8 +257,8 @@ class Report(object):
             'coverage': cov, 'assumptions': self.assumptions, 'wall_s': round(time.time() - self.t0, 2),
             'violations': len(self.violations),
         }
-        os.makedirs(os.path.join(VERIF, 'evidence'), exist_ok=True)
-        json.dump(ev, open(os.path.join(VERIF, 'evidence', self.pid + '.json'), 'w'), indent=1, sort_keys=True)
+        os.makedirs(os.path.join(OUTDIR, 'evidence'), exist_ok=True)
+        json.dump(ev, open(os.path.join(OUTDIR, 'evidence', self.pid + '.json'), 'w'), indent=1, sort_keys=True)
         close_pool()
         return 1 if self.violations else 0
 
